@@ -241,6 +241,47 @@ def sequence_case(ctx, i):
     ctx.case({"seq": first_form, "k1": k1, "k2": k2, "s": gen.shape_of(spec2)}, True)
 
 
+def release_window_directed(ctx):
+    """Directed stress of the hand-over window of the limiter: a nested chain P -> Q (Q reaches the limiter a few loop
+    turns after P released its permit) next to 2-4 siblings that queue on the limiter, k = 1..3, under many burst
+    schedules (several bodies released in ONE loop turn, so a release, a woken waiter and a new arrival coincide)."""
+    rng = ctx.rng
+    for n_sib in (2, 3, 4):
+        for chain in (2, 3):
+            inner = {"name": "nest", "nodes": [{"k": "fn", "name": f"c{j}", "params": [{"n": "x" if j == 0 else f"cv{j - 1}"}], "outs": [f"cv{j}"], "async": True} for j in range(chain)], "bind": {}}
+            nodes = [{"k": "sub", "name": "nest", "prog": inner}] + [{"k": "fn", "name": f"s{j}", "params": [{"n": "x"}], "outs": [f"sv{j}"], "async": True} for j in range(n_sib)]
+            spec = {"name": "relwin", "nodes": nodes, "bind": {}}
+            inputs = {"x": "run:x"}
+            base = core.execute(spec, inputs, "async", sched=rt.Sched(default="first"))
+            if base.deadlock or base.inconclusive or base.exc is not None:
+                ctx.inconc(base.inconclusive or f"release-window baseline: {base.exc!r}")
+                continue
+            b = norm(base)
+            for k in (1, 2, 3):
+                for rep in range(12 if ctx.tier == "quick" else 60):
+                    sched = rt.Sched(default="rand", rng=rng, burst=(rng.choice([0.4, 0.6, 0.8]), rng.randint(2, 6)))
+                    o = core.execute(spec, inputs, "async", sched=sched, max_concurrency=k)
+                    ctx.obs["limited_runs"] += 1
+                    ctx.obs["release_window_runs"] += 1
+                    ctx.obs["quiescent_points"] += sched.quiescent_points
+                    ctx.obs["burst_releases"] += sched.bursts
+                    ctx.obs["bodies_entered"] += o.rec.count("enter")
+                    c2 = {"spec": spec, "inputs": inputs, "form": "run", "depth": 1, "k": k, "policy": "burst", "directed": "release-window"}
+                    if o.deadlock:
+                        ctx.violation("C15:deadlock", f"k={k} burst (release-window program): loop quiescent, nothing parked, call not finished", c2)
+                        break
+                    if o.inconclusive:
+                        ctx.inconc(o.inconclusive)
+                        continue
+                    if o.rec.max_inflight_fn > k:
+                        ctx.violation("C15:bound-exceeded", f"k={k} burst (release-window program, {n_sib} siblings, chain {chain}): {o.rec.max_inflight_fn} bodies executing at the same instant", c2)
+                        break
+                    if norm(o) != b:
+                        ctx.violation("C15:result-differs", f"k={k} burst (release-window program): result differs from the unlimited run", c2)
+                        break
+    ctx.case({"directed": "release-window"}, True)
+
+
 def run(ctx):
     n = 40 if ctx.tier == "quick" else 1000
     core.WARM_P = 0.0
@@ -256,6 +297,8 @@ def run(ctx):
         ctx.case("r1")
         ctx.case("r2")
         return
+    if ctx.shard[0] == 0:
+        release_window_directed(ctx)
     for i in range(n):
         if i % 5 == 4:
             sequence_case(ctx, i)
